@@ -551,6 +551,23 @@ func (c *TermCtx) Bin(op Op, a, b *Term) *Term {
 		if a == b {
 			return c.Const(w, 0)
 		}
+		// (x ^ y) ^ y = x
+		if a.Op == OpXor {
+			if a.A[0] == b {
+				return a.A[1]
+			}
+			if a.A[1] == b {
+				return a.A[0]
+			}
+		}
+		if b.Op == OpXor {
+			if b.A[0] == a {
+				return b.A[1]
+			}
+			if b.A[1] == a {
+				return b.A[0]
+			}
+		}
 	case OpShl:
 		if b.isZero() {
 			return a
@@ -813,10 +830,6 @@ func (c *TermCtx) Extract(a *Term, hi, lo int) *Term {
 	case OpIte:
 		if a.A[1].IsConst() || a.A[2].IsConst() {
 			return c.Ite(a.A[0], c.Extract(a.A[1], hi, lo), c.Extract(a.A[2], hi, lo))
-		}
-	case OpAnd, OpOr, OpXor:
-		if w <= 8 {
-			return c.Bin(a.Op, c.Extract(a.A[0], hi, lo), c.Extract(a.A[1], hi, lo))
 		}
 	}
 	return c.node(OpExtract, w, hi, lo, "", a)
@@ -1194,12 +1207,14 @@ func smtName(n string) string {
 	return "|" + strings.NewReplacer("|", "!", "\\", "!").Replace(n) + "|"
 }
 
+var termPrintDepth = 6
+
 // String renders a term as a (possibly large) S-expression; for debugging.
 func (t *Term) String() string {
 	var sb strings.Builder
 	var rec func(t *Term, d int)
 	rec = func(t *Term, d int) {
-		if d > 6 {
+		if d > termPrintDepth {
 			sb.WriteString("...")
 			return
 		}
